@@ -744,6 +744,8 @@ func c065(c *Ctx, r *Report) {
 	})
 	r.Floor("R-C06.5", "signed-field setters in CreateEntryWithIO", nset, 2)
 
+	preSignInputsFinal(c, r, "R-C06.5")
+
 	// key and signature used by Verify are the receiver's own
 	recv := verify.Pkg.TypesInfo.Defs[verify.Decl.Recv.List[0].Names[0]]
 	keyF, sigF := p.Field("entry", "Entry", "Key"), p.Field("entry", "Entry", "Sig")
@@ -779,4 +781,79 @@ func c065(c *Ctx, r *Report) {
 	})
 	r.Check(okKey && okSig, "R-C06.5", r.Key("R-C06.5", verify, "own-key-and-sig", ""), verify.Body.Pos(),
 		"verification uses the entry's own Key and Sig fields", fmt.Sprintf("verification does not use the entry's own key (%v) and signature (%v)", okKey, okSig))
+}
+
+// preSignInputsFinal: every entry field the pre-sign transformation reads (through any first-party callee)
+// must already have its final value when PreSign runs at creation time — Verify re-runs PreSign on the
+// finished entry, so a field set after PreSign makes the two runs disagree and the entry never verifies.
+func preSignInputsFinal(c *Ctx, r *Report, rule string) {
+	p := c.P
+	create := p.Func("entry", "", "CreateEntryWithIO")
+	ps := p.Named("iface", "IOPreSign").Underlying().(*types.Interface)
+	var psM *types.Func
+	for i := 0; i < ps.NumMethods(); i++ {
+		if ps.Method(i).Name() == "PreSign" {
+			psM = ps.Method(i)
+		}
+	}
+	if psM == nil {
+		infra("unresolved anchor: iface.IOPreSign.PreSign")
+	}
+	impls := c.CG.Implementers(psM)
+	reads := map[string]string{}
+	for fn := range c.CG.Reach(impls, false) {
+		walkNoLit(fn.Body, func(n ast.Node) bool {
+			if call, ok := n.(*ast.CallExpr); ok {
+				if se, ok := ast.Unparen(call.Fun).(*ast.SelectorExpr); ok && strings.HasPrefix(se.Sel.Name, "Get") {
+					if isNamed(p.TypeOf(fn, se.X), p.pkgPath("iface"), "IPFSLogEntry") {
+						reads[strings.TrimPrefix(se.Sel.Name, "Get")] = fn.Name
+					}
+				}
+			}
+			return true
+		})
+	}
+	var rl []string
+	for k := range reads {
+		rl = append(rl, k)
+	}
+	sort.Strings(rl)
+	r.Tables["fields_read_by_presign"] = rl
+	r.Floor(rule, "entry fields read by the pre-sign transformation", len(reads), 3)
+	fl := &Flow{P: p, Fn: create, May: true, Entry: Facts{}}
+	fl.Node = func(n ast.Node, f Facts) {
+		walkNoLit(n, func(nd ast.Node) bool {
+			if call, ok := nd.(*ast.CallExpr); ok {
+				if cf := p.Callee(create, call); cf == psM {
+					f["presigned"] = true
+				}
+			}
+			return true
+		})
+	}
+	fl.Run()
+	n := 0
+	fl.Visit(func(_ *cfgBlk, nd ast.Node, before Facts) {
+		walkNoLit(nd, func(x ast.Node) bool {
+			call, ok := x.(*ast.CallExpr)
+			if !ok {
+				return true
+			}
+			se, ok := ast.Unparen(call.Fun).(*ast.SelectorExpr)
+			if !ok || !strings.HasPrefix(se.Sel.Name, "Set") || !isNamed(p.TypeOf(create, se.X), p.pkgPath("iface"), "IPFSLogEntry") {
+				return true
+			}
+			field := strings.TrimPrefix(strings.TrimSuffix(se.Sel.Name, "Value"), "Set")
+			if !before["presigned"] {
+				return true
+			}
+			n++
+			where, isRead := reads[field]
+			r.Check(!isRead, rule, r.Key(rule, create, "setter-after-presign", se.Sel.Name), call.Pos(),
+				se.Sel.Name+" after PreSign touches a field the pre-sign transformation does not read",
+				fmt.Sprintf("%s is called after PreSign, but the pre-sign transformation reads that field (Get%s in %s): at creation PreSign sees the old value, at verification the final one, so the sealed data and the signed bytes differ and entries written with a link key never verify", se.Sel.Name, field, where))
+			return true
+		})
+	})
+	r.Floor(rule, "entry setters after PreSign in CreateEntryWithIO", n, 2)
 }
